@@ -4,7 +4,7 @@ import json, glob, os, subprocess
 V = os.path.dirname(os.path.dirname(os.path.abspath(__file__)))
 props = [json.loads(l) for l in open(os.path.join(V, "properties.jsonl"))]
 claimed = {}
-for p in sorted(glob.glob(os.path.join(V, "props", "C*.json"))):
+for p in sorted(p for p in glob.glob(os.path.join(V, "props", "C*.json")) if not p.endswith(".findings.json")):
     c = json.load(open(p))
     if c.get("claimed", True):
         claimed[c["id"]] = c
